@@ -192,6 +192,19 @@ def gen_cases(tier):
         else:
             cases.append(Case(name, '%s :: (a: %s) -> %s { ~a }' % (name, t, t), [t], t,
                               lambda args: ([], ~args[0]), {'kind': 'unop', 'op': 'not', 'type': t}))
+    # 128-bit operands passed and returned directly (register pairs), in addition to the by-pointer forms above
+    for t in BIG:
+        for n, o in (('add', '+'), ('sub', '-'), ('mul', '*'), ('and', '&'), ('xor', '~'), ('shl', '<<'), ('shr', '>>')):
+            name = 'v%s_%s' % (n, t)
+            cases.append(Case(name, '%s :: (a: %s, b: %s) -> %s { a %s b }' % (name, t, t, t, o), [t, t], t, spec_bin(n, t), {'kind': 'binop-by-value', 'op': n, 'type': t}))
+        for n, o in CMPS.items():
+            name = 'v%s_%s' % (n, t)
+            cases.append(Case(name, '%s :: (a: %s, b: %s) -> bool { a %s b }' % (name, t, t, o), [t, t], 'bool', spec_cmp(n, t), {'kind': 'cmp-by-value', 'op': n, 'type': t}))
+        for d in ('i64', 'u8', 'u64'):
+            name = 'vcast_%s_%s' % (t, d)
+            cases.append(Case(name, '%s :: (a: %s) -> %s { %s.(a) }' % (name, t, d, d), [t], d, spec_cast(t, d), {'kind': 'cast-by-value', 'src': t, 'dst': d}))
+            name = 'vcast_%s_%s' % (d, t)
+            cases.append(Case(name, '%s :: (a: %s) -> %s { %s.(a) }' % (name, d, t, t), [d], t, spec_cast(d, t), {'kind': 'cast-by-value', 'src': d, 'dst': t}))
     # casts: every ordered pair; int -> bool and float -> bool are outside the claim (the property does not define them)
     for s in allscalar + BIG:
         for d in allscalar + BIG:
